@@ -52,15 +52,15 @@ Example C31_nonvacuous :
   format_value (Some [99; 111; 109; 46; 101; 120]) [111; 46; 65] = [111; 46; 65] /\ parse_int [32; 50; 54] = Some 26.
 Proof. repeat split; reflexivity. Qed.
 
-(* from the bytes: for the binary XML of a manifest (C26: header, string pool, chunks of any element tree with attributes and
-   namespaces) the queries are answered on exactly the tree the file encodes - every statement above about `root` is a
-   statement about the file *)
-Theorem C31_the_queries_see_the_tree_the_file_encodes : forall (utf8_flag : bool) ss padding sysattr decls t,
-  Forall (PoolProofs.fits utf8_flag) ss -> Z.of_nat (length ss) < NONE -> Forall AxmlAttrs.wf_decl decls ->
-  AxmlAttrs.wf_atree ss t -> AxmlAttrs.atail t = NONE ->
+(* from the bytes: for the binary XML of a manifest (C26: header, string pool, resource map, chunks of any element tree with
+   attributes and namespaces) the queries are answered on exactly the tree the file encodes - every statement above about
+   `root` is a statement about the file *)
+Theorem C31_the_queries_see_the_tree_the_file_encodes : forall (utf8_flag : bool) ss padding sysattr ids decls t,
+  Forall (PoolProofs.fits utf8_flag) ss -> Z.of_nat (length ss) < NONE -> AxmlAttrs.wf_res ids -> Forall AxmlAttrs.wf_decl decls ->
+  AxmlAttrs.wf_atree ss sysattr ids t -> AxmlAttrs.atail t = NONE ->
   28 + 4 * Z.of_nat (length ss) + len (concat (map (if utf8_flag then PoolProofs.entry8 else PoolProofs.entry16) ss)) < 4294967296 ->
-  len (AxmlDocument.doc_bytes utf8_flag ss padding (AxmlAttrs.adoc_items decls t)) < 4294967296 ->
-  option_map analyse (match parse_axml sysattr (AxmlDocument.doc_bytes utf8_flag ss padding (AxmlAttrs.adoc_items decls t)) with Ok r => r | Err _ => None end)
-  = Some (analyse (AxmlAttrs.atree_of ss decls t)).
+  len (AxmlDocument.doc_bytes utf8_flag ss padding (AxmlDocument.IResMap ids :: AxmlAttrs.adoc_items decls t)) < 4294967296 ->
+  option_map analyse (match parse_axml sysattr (AxmlDocument.doc_bytes utf8_flag ss padding (AxmlDocument.IResMap ids :: AxmlAttrs.adoc_items decls t)) with Ok r => r | Err _ => None end)
+  = Some (analyse (AxmlAttrs.atree_of ss sysattr ids decls t)).
 Proof. exact queries_from_bytes. Qed.
 Print Assumptions C31_the_queries_see_the_tree_the_file_encodes.
